@@ -848,7 +848,8 @@ class ExecMixin(object):
         c = self.reg.get(cname)
         dcls, fi = self.find_method(cls, name)
         if c is not None and not c.inline:
-            for r in self.use_contract(ctx, st, c, [obj] + list(args), kwargs, fi):
+            recv = [] if (fi is not None and 'staticmethod' in fi.decorators) else [obj]
+            for r in self.use_contract(ctx, st, c, recv + list(args), kwargs, fi):
                 yield r
             return
         if fi is None:
